@@ -180,7 +180,74 @@ func (dv *driver) lrDepthLemma() (ok bool, detail string) {
 			}
 		}
 	}
+	dv.lrGraph = &lrGraph{succ: succ, pred: pred, node: node, gotoOf: gotoOf}
 	return true, fmt.Sprintf("%d states reachable, %d push edges, %d (state, rule) reductions: every reduction finds at least yyR2[r] entries above the bottom of the stack", len(node), edges, nred)
+}
+
+type lrGraph struct {
+	succ, pred []map[int]bool
+	node       map[int]bool
+	gotoOf     func(b int, a int64) int
+}
+
+// acceptLemma (C06: a parse that returns 0 has reduced rule 1, whose action stores the root): on the tables as
+// they stand, the accept action (a negative action in an exception group) occurs in exactly one reachable state A,
+// only on the end-of-input token; A is pushed only on top of state 0, by the goto on the left-hand side of rule 1;
+// and rule 1 is the only rule with that left-hand side. Needs the graph of lrDepthLemma.
+func (dv *driver) acceptLemma() (bool, string) {
+	g := dv.lrGraph
+	if g == nil {
+		return false, "the push graph is not available"
+	}
+	T := dv.tables
+	def, exca, r1 := T["yyDef"], T["yyExca"], T["yyR1"]
+	eof, _ := dv.constOf("yyEofCode")
+	var acc []int
+	for s := range g.node {
+		if def[s] != -2 {
+			continue
+		}
+		for i := 0; i+1 < len(exca); i += 2 {
+			if exca[i] == -1 && exca[i+1] == int64(s) {
+				for j := i + 2; j+1 < len(exca); j += 2 {
+					if exca[j+1] < 0 {
+						if exca[j] != eof {
+							return false, fmt.Sprintf("state %d accepts on token %d, not only at the end of the input", s, exca[j])
+						}
+						acc = append(acc, s)
+					}
+					if exca[j] < 0 {
+						break
+					}
+				}
+				break
+			}
+		}
+	}
+	if len(acc) != 1 {
+		return false, fmt.Sprintf("%d reachable states carry an accept action", len(acc))
+	}
+	a := acc[0]
+	if len(g.pred[a]) != 1 || !g.pred[a][0] {
+		return false, fmt.Sprintf("the accepting state %d is pushed on top of states other than 0", a)
+	}
+	if len(r1) < 2 {
+		return false, "yyR1 too short"
+	}
+	start := r1[1]
+	if g.gotoOf(0, start) != a {
+		return false, fmt.Sprintf("the goto of state 0 on the left-hand side of rule 1 is not the accepting state %d", a)
+	}
+	for r := 2; r < len(r1); r++ {
+		if r1[r] == start {
+			return false, fmt.Sprintf("rule %d has the same left-hand side as rule 1", r)
+		}
+	}
+	// no shift leads to a: a's accessing symbol is the start symbol
+	if chk := T["yyChk"]; chk[a] != -start {
+		return false, fmt.Sprintf("the accepting state's accessing symbol is %d, not the start symbol", chk[a])
+	}
+	return true, fmt.Sprintf("accept occurs only in state %d on end of input; that state is pushed only on state 0 by the goto on the left-hand side of rule 1, which no other rule shares: a parse that returns 0 has reduced rule 1", a)
 }
 
 // addDrv runs the driver engine on one grammar package and adds its obligations.
@@ -214,6 +281,14 @@ func (c *CheckCtx) addDrv(name string) {
 		if !ok {
 			c.Extra = append(c.Extra, &Obligation{Name: prefix + "/table/lr-depth", Class: "table", Status: "sat", Solver: "table-evaluation", Props: []string{c.Prop},
 				Output: "the LR stack-discipline lemma fails on the tables as they stand: " + detail})
+		}
+		if ok && c.Prop == "C06" {
+			ok2, d2 := dv.acceptLemma()
+			c.Tables = append(c.Tables, fmt.Sprintf("%s accept-via-rule-1: %v - %s", name, ok2, d2))
+			if !ok2 {
+				c.Extra = append(c.Extra, &Obligation{Name: prefix + "/table/accept-via-rule-1", Class: "table", Status: "sat", Solver: "table-evaluation", Props: []string{c.Prop},
+					Output: "on the tables as they stand a parse can return 0 without reducing rule 1: " + d2})
+			}
 		}
 	}
 	for _, e := range dv.frameErr {
